@@ -123,7 +123,7 @@ func (w *Worker) snapOf(s *core.VerifSnap, names map[int]string) Snap {
 			}
 			sn.Cli = append(sn.Cli, cs)
 		case "s":
-			sn.Srv = append(sn.Srv, SrvSnap{Conn: nm[2:], Out: len(c.OutFrags), In: len(c.InFrags)})
+			sn.Srv = append(sn.Srv, SrvSnap{Conn: nm[2:], Node: nodeOfConn(nm[2:]), Out: len(c.OutFrags), In: len(c.InFrags)})
 		}
 	}
 	sort.Slice(sn.Cli, func(i, j int) bool { return sn.Cli[i].C < sn.Cli[j].C })
@@ -156,13 +156,13 @@ func (w *Worker) iterate(wait time.Duration) (ran bool) {
 	for _, e := range seen {
 		switch {
 		case e.Fd == efd:
-			names = append(names, SeenRec{"W", ""})
+			names = append(names, SeenRec{"W", "", ""})
 		case pre[e.Fd] != "":
-			names = append(names, SeenRec{pre[e.Fd][:1], pre[e.Fd][2:]})
+			names = append(names, seenRec(pre[e.Fd]))
 		case post[e.Fd] != "":
-			names = append(names, SeenRec{post[e.Fd][:1], post[e.Fd][2:]})
+			names = append(names, seenRec(post[e.Fd]))
 		default:
-			names = append(names, SeenRec{"L", ""})
+			names = append(names, SeenRec{"L", "", ""})
 		}
 	}
 	w.Log.Add(Event{Ev: "iter", Seen: names, Snap: w.snapOf(s, post)})
@@ -196,6 +196,23 @@ func (w *Worker) flushOut() {
 			delivered(pfd, s.Conns[i].Fd, deadline)
 		}
 	}
+}
+
+func seenRec(name string) SeenRec {
+	r := SeenRec{K: name[:1], N: name[2:]}
+	if r.K == "s" {
+		r.Node = nodeOfConn(r.N)
+	}
+	return r
+}
+
+func nodeOfConn(id string) string {
+	for i := 0; i < len(id); i++ {
+		if id[i] == '#' {
+			return id[:i]
+		}
+	}
+	return id
 }
 
 // settle iterates until the poller has nothing more to report.
@@ -326,30 +343,46 @@ func (w *Worker) apply(st *Stim) {
 		if n < 1 {
 			n = 1
 		}
+		// "the deadline of the oldest request still in flight passes": fragments in deadline order as the
+		// timeout tree has them, then any owned in-flight fragment the tree does not know (it should)
 		s := core.VerifSnapshot(false)
 		keyOf := map[uint64]string{}
+		inTree := map[uint64]bool{}
+		var cand []uint64
+		for _, id := range s.Timeout {
+			inTree[id] = true
+		}
+		var missing []uint64
 		for _, c := range s.Conns {
 			for _, f := range c.InFrags {
 				keyOf[f.Id] = f.Key
+				if !inTree[f.Id] && !f.Done && f.OwnerFd >= 0 {
+					missing = append(missing, f.Id)
+				}
 			}
 		}
 		for _, id := range s.Timeout {
+			if _, inflight := keyOf[id]; inflight {
+				cand = append(cand, id)
+			}
+		}
+		sort.Slice(missing, func(i, j int) bool { return missing[i] < missing[j] })
+		cand = append(cand, missing...)
+		for _, id := range cand {
 			if n == 0 {
 				break
 			}
 			if w.expired[id] {
 				continue
 			}
-			if core.VerifExpire(id) {
-				w.expired[id] = true
-				n--
-				ev := Event{Ev: "expire"}
-				if t, ok := w.Cl.keyTok(keyOf[id]); ok {
-					ev.Fid = fmt.Sprintf("%s.%d.%s", t.C, t.I, t.S)
-					ev.C, ev.I, ev.Slots = t.C, t.I, []string{t.S}
-				}
-				w.Log.Add(ev)
+			t, ok := w.Cl.keyTok(keyOf[id])
+			if !ok {
+				continue
 			}
+			core.VerifExpire(id) // no effect if the fragment has no deadline (which the monitor will then expose)
+			w.expired[id] = true
+			n--
+			w.Log.Add(Event{Ev: "expire", Fid: fmt.Sprintf("%s.%d.%s", t.C, t.I, t.S), C: t.C, I: t.I, Slots: []string{t.S}})
 		}
 		if n > 0 {
 			w.Unreal++
